@@ -253,6 +253,25 @@ func originCalls(o *origin.O, f *ssa.Function) bool {
 // call that does not return (log.Fatal, os.Exit with a non-zero status, a fatal helper) and never joins the success path.
 func failEdgeNoReturn(e *Env, p *load.Program, rule, key string, call *ssa.Call) bool {
 	r := e.R
+	mk := r.Mark()
+	if failEdgeNoReturnDom(e, p, rule, key, call) {
+		return true
+	}
+	if flow.ErrResult(call) == nil {
+		return false
+	}
+	// a shared error variable or a check behind a join: decide it on the function's paths (E9)
+	ps := pathsOf(p, call.Parent())
+	if good, _ := ps.failTerminates(call); good {
+		r.Retract(mk, rule)
+		r.OK(rule, key, p.Pos(call.Pos()), fmt.Sprintf("failure of %s terminates the command with a non-zero status on every path (%s)", calleeName(call), ps.describe()))
+		return true
+	}
+	return false
+}
+
+func failEdgeNoReturnDom(e *Env, p *load.Program, rule, key string, call *ssa.Call) bool {
+	r := e.R
 	errv := flow.ErrResult(call)
 	if errv == nil {
 		r.Unknown(rule, key, p.Pos(call.Pos()), "call has no error result")
